@@ -1,7 +1,7 @@
 SPECIFICATION Spec
 CONSTANTS
-  Nm = {"a", "b"}
-  MaxOps = 3
+  Nm = {"a", "b", "l"}
+  MaxOps = 2
   MaxIno = 6
 INVARIANTS TreeOK FailClean WalkOK SizeOK
 CHECK_DEADLOCK FALSE
